@@ -87,11 +87,15 @@ def run_variants(ctx, variants):
             res.update(status="skipped", detail="file vanished")
             results.append(res)
             continue
-        if text.count(v["old"]) != 1:
-            res.update(status="skipped", detail="anchor text occurs %d times in the current tree" % text.count(v["old"]))
+        edits = v.get("edits") or [(v["old"], v["new"])]
+        bad = [o for o, _ in edits if text.count(o) != 1]
+        if bad:
+            res.update(status="skipped", detail="anchor text occurs %d times in the current tree" % text.count(bad[0]))
             results.append(res)
             continue
-        new_text = text.replace(v["old"], v["new"])
+        new_text = text
+        for o, n_ in edits:
+            new_text = new_text.replace(o, n_)
         try:
             prog = overlay_program(units, {v["file"]: new_text}, tag=ctx.prop)
         except AnalysisBroken as e:
